@@ -13,7 +13,7 @@
    calls, race detector.  Data races are outside this model. *)
 From Coq Require Import List Ascii String NArith ZArith Bool Arith.
 Import ListNotations.
-Require Import KV Parser ChkCoalesce CoalesceProofs CoalesceHeap CoalesceHeapProofs CoalesceWrites CoalesceWritesOk.
+Require Import KV Parser ChkCoalesce CoalesceProofs CoalesceHeap CoalesceHeapProofs CoalesceWrites CoalesceWritesOk SliceHeap SliceHeapProofs.
 
 (* the heap model computes the functional model's event, changes no cell that existed before the call, and
    the event's own maps are cells allocated by the call (its Paths: the input messages' cells) *)
@@ -46,6 +46,19 @@ Proof. exact run_calls_frame. Qed.
 Theorem C15_write_targets_owned : coalesce_writes_okb = true.
 Proof. exact coalesce_writes_ok. Qed.
 
+(* the ECS category / type slices an event shares with the normalisation tables (Model/SliceHeap.v: slices with a backing
+   array and a capacity; append writes in place when there is room): a table slice without spare capacity is never written
+   through an event - the merge allocates, leaves every existing array alone and reads as table ++ extra, which is what the
+   functional model of applyNormalization (ChkNorm.apply_norm) computes.  That no table slice has spare capacity is part of
+   C15_write_targets_owned (norm_spare_capacity = [], from the loaded tables on this run); with spare capacity two events
+   share the appended slot (SliceHeapProofs.spare_capacity_breaks_isolation). *)
+Theorem C15_table_slices_not_written : forall (h : aheap str) (table : slice) (extra : option slice),
+  full str h table -> (forall e, extra = Some e -> sread str h e <> []) ->
+  let '(h', s') := ecs_merge str h table extra in
+  (forall l, l < List.length h -> nth l h' [] = nth l h []) /\ List.length h <= List.length h' /\
+  sread str h' s' = (sread str h table ++ match extra with Some e => sread str h e | None => [] end)%list.
+Proof. exact (ecs_merge_isolated str). Qed.
+
 (* non-vacuity: a SYSCALL + PATH + EXECVE group on a heap holding the three cached maps *)
 Example C15_example :
   let h := [[(L "syscall", L "execve"); (L "items", L "2"); (L "result", L "success"); (L "auid", L "1000")];
@@ -62,6 +75,7 @@ Proof.
   - vm_compute. split; reflexivity.
 Qed.
 
+Print Assumptions C15_table_slices_not_written.
 Print Assumptions C15_write_targets_owned.
 Print Assumptions C15_heap_model_refines.
 Print Assumptions C15_inputs_intact.
